@@ -88,6 +88,25 @@ CHECKS = {
         design_ref="DESIGN.md 7/C14",
         note="TLC; non-negative bounds; call sites are covered by the cluster properties",
         technique="TLA+ clause spec + algorithm model (TLC exhaustive); real outputs validated by TLC"),
+    "C17": dict(
+        category="model_checking",
+        text="OfflineMode.tla states the per-pass policy (enable only above the threshold with a writable master and within "
+             "the zone share counting earlier ones of the pass, disable only at/below the lower threshold with a fresh "
+             "negative resetup status, hysteresis, rate limiter, master kept online) over the ordered offline_mode "
+             "statements of a pass; the real repairOfflineMode runs on fake servers for every percentage x separator x "
+             "thousands of generated situations and pass sequences and TLC judges every pass (OfflineRows.tla).",
+        design_ref="DESIGN.md 7/C17",
+        note="zone rule restated independently in the harness; lenient on ambiguous broken+lagging replicas",
+        technique="TLA+ policy spec; TLC validation of statement sequences recorded from real passes on fakes"),
+    "C18": dict(
+        category="model_checking",
+        text="DiskGuard.tla gives NeedRO / MayWrite from the statement; TLC checks a transcription of the code's counters "
+             "against them on the complete level grid, and judges every cell of master usage x 0-3 replicas x wait count x "
+             "current mode x both switches executed through the real repairReadOnlyOnMaster on a fake master (statements, "
+             "resulting mode, low_space write).",
+        design_ref="DESIGN.md 7/C18",
+        note="integer percentages; config validation not in the grid",
+        technique="TLA+ decision table (TLC exhaustive) + TLC validation of real guard decisions on a fake server"),
 }
 
 NOT_YET = "check not built yet in this round (work in progress, see DESIGN.md 9)"
